@@ -145,6 +145,28 @@ CLOSE = r'''
 (os/exit 0)
 '''
 
+REQUEUE = r'''
+# single thread, thread channels: a take abandoned by a deadline leaves a registration; values handed to it must be re-queued, in order,
+# whatever the ring position and size of the item queue
+(var bad 0)
+(each cap [1 2 3 4 8]
+  (for pre 0 7
+    (for k 1 (+ cap 1)
+      (def c (ev/thread-chan cap))
+      (repeat pre (ev/give c :warm) (ev/take c))
+      (def r0 (try (ev/with-deadline 0.002 (ev/take c)) ([e] :timeout)))
+      (for j 0 k (ev/give c [:item j]))
+      (ev/sleep 0.002)
+      (def got @[])
+      (for j 0 (+ k 1) (array/push got (try (ev/with-deadline 0.01 (ev/take c)) ([e] :timeout))))
+      (def want (array/concat (seq [j :range [0 k]] [:item j]) @[:timeout]))
+      (unless (and (= r0 :timeout) (deep= got want))
+        (++ bad)
+        (print "R cap=" cap " pre=" pre " k=" k " first=" r0 " got=" (string/format "%j" got))))))
+(print "REQUEUE-DONE " bad)
+(os/exit 0)
+'''
+
 LIFETIME = r'''
 # shared objects are released after the last reference is dropped and every thread has collected
 (def baseline ((verif/stats) :live-threaded))
@@ -328,6 +350,31 @@ def run(ctx):
                 if ok1 != "true" or r2 != "(:payload %s)" % i:
                     ctx.violation("close:wrong-result", "round %s: select result ok=%s, the later unrelated wait returned %s instead of (:payload %s)" % (i, ok1, r2, i), files)
     core.pmap(close_run, range(4), jobs=4)
+
+    # values handed to an abandoned registration are re-queued in order, for every ring position and size
+    def requeue_run(k):
+        flavour, exe = [("asan", asan), ("tsan", tsan), ("plain", build.janet("plain"))][k]
+        d = core.case_dir()
+        p4 = os.path.join(d, "requeue.janet")
+        open(p4, "w").write(REQUEUE)
+        res = core.run([exe, p4], timeout=300, cwd=d)
+        core.discard(res)
+        ctx.evals()
+        files = {"requeue.janet": REQUEUE, "stdout.txt": res.out[-2000:], "stderr.txt": res.err[-2000:]}
+        for kind, sig, text in res.san:
+            ctx.violation("requeue:%s" % sig, text[:500], dict(files, **{"sanitizer.txt": text}))
+        out = res.out.decode(errors="replace")
+        m = re.search(r"REQUEUE-DONE (\d+)", out)
+        if not m:
+            if not res.san:
+                ctx.violation("requeue:script-failed", "rc=%s sig=%s timed_out=%s %s" % (res.rc, res.sig, res.timed_out, res.err.decode(errors="replace")[-300:]), files)
+            return
+        ctx.count("requeue_cases", 5 * 7 * 4)
+        ctx.nontriv(("requeue", flavour))
+        if int(m.group(1)) > 0:
+            first = [l for l in out.splitlines() if l.startswith("R ")][:1]
+            ctx.violation("requeue:lost-or-reordered", "%s of the (capacity, warm-up, gives) combinations lost or reordered values handed to an abandoned take: %s" % (m.group(1), first), files)
+    core.pmap(requeue_run, range(3), jobs=3)
 
     # lifetime of shared abstracts
     for flavour, exe in (("asan", asan), ("tsan", tsan)):
